@@ -21,7 +21,7 @@ def one(d):
     own = os.path.basename(d).split("-")[0]
     return os.path.basename(d), det.get(own, {}).get("fired"), [p for p, v in det.items() if v["fired"]], m["title"][:100]
 dirs = [d for d in sorted(glob.glob(os.path.join(V, "seeded", "*"))) if not only or any(os.path.basename(d).startswith(o) for o in only)]
-with concurrent.futures.ThreadPoolExecutor(max_workers=6) as ex:
+with concurrent.futures.ThreadPoolExecutor(max_workers=12) as ex:
     rows = list(ex.map(one, dirs))
 for r in rows:
     print(r[0], "OWN" if r[1] else ("other" if r[2] else "MISSED"), r[2], "|", r[3])
